@@ -59,6 +59,19 @@ theorem cnl_single_nest (a : Int → ℝ) (nests : List (Nest ℝ)) (alts : List
       nestedP nests alts (fun j => V j + Real.log (a j)) av c :=
   cnlP_toCNestA a nests alts V av c hc hpw hnd hmu h01 ha ha1
 
+/-- allocations satisfying the hypotheses: 0.5 for alternative 7 (in a nest), 1 elsewhere -/
+example : let a : Int → ℝ := fun j => if j = 7 then 0.5 else 1
+    (∀ j, 0 < a j) ∧ (∀ j, (∀ m ∈ [(⟨1.5, [7, 12]⟩ : Nest ℝ), ⟨2, [3]⟩], j ∉ m.alts) → a j = 1) := by
+  intro a
+  constructor
+  · intro j
+    by_cases h : j = 7
+    · simp only [a, h, if_true]; norm_num
+    · simp [a, h]
+  · intro j hj
+    have : j ≠ 7 := fun h => hj ⟨1.5, [7, 12]⟩ (by simp) (by simp [h])
+    simp [a, this]
+
 /-- the same reduction with the explicit scale `mu > 0`: `cnlmu` on single-nest allocations is
 `nested_mev_mu` on the utilities `V_i + log (a i) / mu` (with `a = 1`: degenerate cnlmu = nested-mu) -/
 theorem cnl_mu_single_nest (a : Int → ℝ) (nests : List (Nest ℝ)) (mu : ℝ) (alts : List Int)
